@@ -1,5 +1,6 @@
 import Np.Proofs.Deriv
 import Np.Proofs.Expr3
+import Np.Proofs.GradUnbounded
 import Np.Model.Grad
 import Np.Proofs.DerivFull
 import Np.Proofs.GradArr
@@ -103,5 +104,33 @@ theorem derivative_den_unbounded {S : Type} [CommRing S] [BEq S] [LawfulBEq S] (
     (hw : WF p) (hj : j < p.names.length) :
     WF (derivative rn j p) ∧ den (derivative rn j p) = MvPolynomial.pderiv (p.names[j]) (den p) :=
   ⟨derivative_WF' rn j p hw hj, derivative_den' rn j p hw hj⟩
+
+/-! ### the array-level statements without the exponent bound (`Np/Proofs/GradUnbounded.lean`): products do not
+preserve "every exponent < 2^32", so these are the versions that compose with arithmetic -/
+section unbounded
+variable {R : Type} [CommSemiring R] [BEq R] [LawfulBEq R] {n : Nat}
+
+theorem gradient_is_partials_unbounded (rc rn : Bool) (p : Poly (Vec R n)) (hw : WF p) :
+    WF (gradient rc rn p) ∧ (partials rn p).length = p.names.length ∧
+    ∀ (j : Nat) (hj : j < p.names.length) (i : Fin n) (k : Fin ((partials rn p).length * n)),
+      k.val = j * n + i.val → denAt (gradient rc rn p) k = pderiv (p.names[j]) (denAt p i) :=
+  gradient_is_partials' rc rn p hw
+
+theorem hessian_is_second_partials_unbounded (rc rn : Bool) (p : Poly (Vec R n)) (hw : WF p) :
+    WF (hessianOf rc rn p) ∧ (hessRows rc rn p).length = p.names.length ∧
+    ∀ (a : Nat) (ha : a < p.names.length) (j : Nat) (hj : j < p.names.length) (i : Fin n)
+      (k' : Fin ((hessRows rc rn p).length * ((partials rn p).length * n))),
+      k'.val = a * (p.names.length * n) + (j * n + i.val) →
+      denAt (hessianOf rc rn p) k' = pderiv (p.names[a]) (pderiv (p.names[j]) (denAt p i)) :=
+  hessian_is_second_partials' rc rn p hw
+
+theorem hessian_symmetric_unbounded (rc rn : Bool) (p : Poly (Vec R n)) (hw : WF p)
+    (a : Nat) (ha : a < p.names.length) (j : Nat) (hj : j < p.names.length)
+    (i : Fin n) (k1 k2 : Fin ((hessRows rc rn p).length * ((partials rn p).length * n)))
+    (h1 : k1.val = a * (p.names.length * n) + (j * n + i.val))
+    (h2 : k2.val = j * (p.names.length * n) + (a * n + i.val)) :
+    denAt (hessianOf rc rn p) k1 = denAt (hessianOf rc rn p) k2 :=
+  hessian_symmetric' rc rn p hw a ha j hj i k1 k2 h1 h2
+end unbounded
 
 end Np.Props.C06
